@@ -510,3 +510,52 @@ def fixed_cases():
 
 def case_hash(status, line):
     return hashlib.sha1((status + "|" + (line or "")).encode()).hexdigest()
+
+
+# ---------------------------------------------------------------------------
+# the property's own statement applied to a real environ, with no reference
+# parse needed (so it also covers accepted requests outside the canonical class)
+
+
+def direct_violations(cfg, items):
+    """-> list of short strings, empty when the serialised real environ
+    (a) contains only latin-1 strings, (b) has CONTENT_LENGTH == number of bytes
+    wsgi.input yielded (no CONTENT_LENGTH: nothing to read), (c) carries the
+    server's own values under the server-defined keys, (d) has no key with an
+    underscore-free image of a '_' name ... (not decidable here) """
+    out = []
+    d = {}
+    for k, v in items:
+        if k in d:
+            out.append("duplicate key %s" % k)
+        d[k] = v
+        if v.startswith("u"):
+            out.append("%s is not a latin-1 string" % k)
+        if v.startswith("?"):
+            out.append("%s has an unexpected type %s" % (k, v))
+    inp = d.get("wsgi.input", "?")
+    nbytes = 0 if inp == "i-" else (len(inp) - 1) // 2
+    cl = d.get("CONTENT_LENGTH")
+    if cl is None:
+        if nbytes:
+            out.append("no CONTENT_LENGTH but wsgi.input yields %d bytes" % nbytes)
+    else:
+        try:
+            n = int(bytes.fromhex(cl[1:]) if cl != "s-" else b"x")
+        except ValueError:
+            n = None
+        if n != nbytes:
+            out.append("CONTENT_LENGTH %s but wsgi.input yields %d bytes" % (cl, nbytes))
+    peer = cfg["peer"]
+    want = {"REMOTE_ADDR": peer[0], "REMOTE_HOST": peer[0], "REMOTE_PORT": str(peer[1]),
+            "SERVER_NAME": cfg["server_name"], "SERVER_PORT": str(cfg["port"]), "SERVER_SOFTWARE": cfg["ident"],
+            "SCRIPT_NAME": cfg["prefix"], "wsgi.url_scheme": cfg["scheme"]}
+    for k, v in want.items():
+        if d.get(k) != str_val(v):
+            out.append("%s is %s, the server's value is %r" % (k, d.get(k), v))
+    for k, v in (("wsgi.version", "t10"), ("wsgi.errors", "stderr"), ("wsgi.multithread", "b1"),
+                 ("wsgi.multiprocess", "b0"), ("wsgi.run_once", "b0"), ("wsgi.file_wrapper", "fw"),
+                 ("wsgi.input_terminated", "b1"), ("waitress.client_disconnected", "cd")):
+        if d.get(k) != v:
+            out.append("%s is %s" % (k, d.get(k)))
+    return out
